@@ -8,7 +8,7 @@ from .common import *  # noqa: F401,F403
 from .common import (
     SVC, MOD, AbsInt, AnalysisError, AnchorError, Cls, Ctx, Facts, Obj, Registry, UNKNOWN, U, Unit, call_name, q, walk_own, where,
 )  # fmt: skip
-from sa.absint import Rec
+from sa.absint import Rec, StrEnumMember
 
 ob = Registry()
 
@@ -60,6 +60,7 @@ def pattern_kinds(c: Ctx) -> list[tuple[str, object, str]]:
         ("identifier string 'UserEvent'", 'UserEvent', 'UserEvent'),
         ('BaseEvent subclass UserEvent', Cls('UserEvent', fields=(('event_type', base),)), 'UserEvent'),
         ("BaseEvent subclass OverrideEvent that declares event_type = 'custom_type'", Cls('OverrideEvent', fields=(('event_type', 'custom_type'),)), 'custom_type'),
+        ("member Names.PING = 'Ping' of a `class Names(str, Enum)` (a str equal to 'Ping' whose str() is 'Names.PING')", StrEnumMember('Ping', 'Names.PING'), 'Ping'),
     ]
 
 
@@ -376,6 +377,11 @@ def check_get_next_event(c: Ctx, u: Unit, call: ast.Call) -> None:
     task = st.targets[0].id
     # the done-set of asyncio.wait({task}) : `done, pending = await asyncio.wait({task}, ...)`
     waits = [n for n in g.live_nodes() if n.kind == 'stmt' and isinstance(n.ast, ast.Assign) and q.node_calls(n, 'wait') and task in U(n.ast.value)]
+    wf = [n for n in g.live_nodes() if q.node_calls(n, 'wait_for') and any(x.args and task in U(x.args[0]) for x in q.node_calls(n, 'wait_for'))]
+    if wf and not waits:
+        c.fail(u, f'the pending `{task}` (queue.get()) is awaited through asyncio.wait_for', 'wait_for cancels the get() task when the poll timeout fires; a get() that was handed an item in that same loop iteration '
+               'is cancelled with the item already removed from the queue: an accepted event is lost (it stays pending in the history for ever)', node=wf[0].ast, witness=[f'{wf[0].where()}  {wf[0].text()}'])
+        return
     if len(waits) != 1 or not isinstance(waits[0].ast.targets[0], ast.Tuple):
         raise AnalysisError(f'{u}: expected `done, pending = await asyncio.wait({{{task}}}, ...)`')
     done_var = U(waits[0].ast.targets[0].elts[0])
